@@ -312,7 +312,7 @@ def run(ctx):
                   lambda c: render_nest("n", c["k"]) if c.get("nest") else render_kernel("k", c["k"]))
     ctx.traces_validated = stats["runs"]
     ctx.samples = [{"kernel": render_header(c["k"], "i"), "pos": c["k"]["pos"], "args": c["a"], "spec_visits": c["exp"]}
-                   for c in (cases[0], cases[len(cases) // 3], cases[(2 * len(cases)) // 3], cases[-1])]
+                   for c in ([c for c in cases if c["exp"]] or cases)[::max(1, len([c for c in cases if c["exp"]] or cases) // 4)][:4]]
     ctx.cov.update({"kernel_shapes": len(kernels) + len(bynest), "spec_runs": len(cases) + len(ncases), "nest_runs": len(ncases), "backends": len(MODES),
                     "backend_runs_compared": stats["runs"], "conforming": stats["conform"],
                     "conforming_empty_loops": stats["conform_empty"], "mismatching_runs": stats["mismatch"],
